@@ -292,6 +292,7 @@ func C09(c *Ctx) {
 	flushNeverSkippedGroup(c, "K11.failed-flush-never-skipped")
 	manifestCreateGroup(c, "K2.manifest-created-only-when-absent")
 	manifestAppendRollbackGroup(c, "K2.failed-manifest-append-rolled-back")
+	compactionOutcomeGroup(c, "K2.compaction-outcome-reported-truthfully")
 	vlogRewindGroup(c, "K2.vlog-append-failure-rewound")
 	// ---- rule 5: durability results are never discarded ------------------------------
 	const r5 = "K8.durability-error-not-dropped"
